@@ -19,6 +19,17 @@ import RedisVerif.Model.AntiEntropy
     CMP <x> <y>                                        differs_from, divergent_buckets  → differs=<0|1> div=<list>
     G <a|b> <limit> <nb> <bucket>*nb                   get_keys_in_buckets              → g <keyhex>*
     SYNC <limit>                                       run_anti_entropy_sync(a, b)      → a <n> (<keyhex> <rv>)* | b <n> …
+    SYNC3 <limit>                                      run_full_anti_entropy on a, b, c → a … | b … | c …
+    HEAL <was partitioned> <auto> <limit>              heal_partition(a, b)             → a … | b …
+    MNEW <a|b|c> <rid> <depth> <limit> <interval> <auto>   AntiEntropyManager::new with that config      → ok
+    MWRITE <n> | MDUE <n> <peer> <now> | MHEAL <n> <peer> | MNEED <n> <now>
+                                                       on_local_write / should_sync / on_partition_healed / peers_needing_sync
+    MDIG <id> <n>                                      digest register id := generate_digest(n's state NOW)
+    MPROC <n> <id>                                     n.process_peer_digest(register id, n's digest NOW)
+    MREQ <id> <n> <peer> <full> <now>                  request register id := n.create_sync_request(peer, n's digest NOW,
+                                                       buckets of n's last verdict | None)
+    MHANDLE <rid> <n> <qid>                            response register rid := n.handle_sync_request(request qid, n's state NOW)
+    MAPPLY <n> <rid>                                   n merges response rid into its state NOW (apply_remote_delta each)
     PULL <a|b> <full 0|1> <limit>                      message protocol, requester = slot: process_peer_digest,
                                                        create_sync_request, handle_sync_request, merge
                                                                                         → differs=… div=… resp=<keyhex>,… | <slot> <n> (<keyhex> <rv>)*
@@ -37,10 +48,18 @@ structure Slot where
 structure St where
   a : Slot
   b : Slot
+  c : Slot
+  /-- `AntiEntropyManager` of node 0 / 1 / 2 (= slot a / b / c) -/
+  mgrs : List (Nat × Mgr)
+  /-- message registers: digests, requests (with the verdict they were built from), responses -/
+  digs : List (Nat × TDigest)
+  verdicts : List (Nat × Option (List Nat))
+  reqs : List (Nat × Request)
+  resps : List (Nat × Response)
 
 def Slot.empty : Slot := { depth := 0, order := [], state := [] }
 
-def St.init : St := { a := Slot.empty, b := Slot.empty }
+def St.init : St := { a := Slot.empty, b := Slot.empty, c := Slot.empty, mgrs := [], digs := [], verdicts := [], reqs := [], resps := [] }
 
 /-- the hasher of the current tree (SipHash-1-3 over the model's byte streams) -/
 def St.hasher (_ : St) : Hasher := currentHasher
@@ -57,6 +76,23 @@ def slotTok : P Bool := do
   if t == "a" then pure true else if t == "b" then pure false else failure
 
 def St.slot (st : St) (isA : Bool) : Slot := if isA then st.a else st.b
+
+def nodeTok : P Nat := do
+  let t ← tok
+  if t == "a" then pure 0 else if t == "b" then pure 1 else if t == "c" then pure 2 else failure
+
+def St.slotN (st : St) (i : Nat) : Slot := if i == 0 then st.a else if i == 1 then st.b else st.c
+
+def St.setSlotN (st : St) (i : Nat) (s : Slot) : St :=
+  if i == 0 then { st with a := s } else if i == 1 then { st with b := s } else { st with c := s }
+
+def St.mgr (st : St) (i : Nat) : Mgr := (st.mgrs.lookup i).getD (Mgr.new 0 0 0 0 false)
+
+def St.setMgr (st : St) (i : Nat) (m : Mgr) : St := { st with mgrs := (i, m) :: st.mgrs.filter (fun p => p.1 != i) }
+
+def put {α : Type} (l : List (Nat × α)) (k : Nat) (v : α) : List (Nat × α) := (k, v) :: l.filter (fun p => p.1 != k)
+
+def showSet (s : List Nat) : String := ",".intercalate (s.map toString)
 
 def showNode (n : MerkleNode) : String := s!"{n.hash}:{n.count}:{n.maxTs}"
 
@@ -93,7 +129,7 @@ def cmd (st : St) : P (St × String) := do
     let b ← bytesTok
     pure (st, toString (Sip.sip13 b))
   | "S" => do
-    let isA ← slotTok
+    let node ← nodeTok
     let depth ← nat
     let n ← nat
     let es ← repeatP n entry
@@ -104,13 +140,92 @@ def cmd (st : St) : P (St × String) := do
       if currentHasher.val (currentStream v) == vh then c else c + 1) 0
     -- the op line carries the CONFIGURED depth; every model function gets the effective one
     let slot : Slot := { depth := effectiveDepth currentDepthBound depth, order := es.map (·.1), state := NMap.ofList (es.map fun e => (e.1, e.2.2.2)) }
-    let st' := if isA then { st with a := slot } else { st with b := slot }
-    pure (st', s!"ok {slot.state.length} conflicts={c}")
+    pure (st.setSlotN node slot, s!"ok {slot.state.length} conflicts={c}")
   | "W" => do
     let m ← nat
     let es ← repeatP m wordsEntry
     let c := es.foldl (fun (c : Nat) e => if currentHasher.words e.1 == e.2 then c else c + 1) 0
     pure (st, s!"ok conflicts={c}")
+  | "MNEW" => do
+    let node ← nodeTok
+    let rid ← nat
+    let depth ← nat
+    let limit ← nat
+    let interval ← nat
+    let auto ← nat
+    pure (st.setMgr node (Mgr.new rid depth limit interval (auto != 0)), "ok")
+  | "MWRITE" => do
+    let node ← nodeTok
+    let m := (st.mgr node).onLocalWrite
+    pure (st.setMgr node m, s!"gen={m.generation}")
+  | "MDUE" => do
+    let node ← nodeTok
+    let peer ← nat
+    let now ← nat
+    let r := match (st.mgr node).shouldSync peer now with | .yes => "yes" | .no => "no" | .underflow => "underflow"
+    pure (st, s!"due={r}")
+  | "MHEAL" => do
+    let node ← nodeTok
+    let peer ← nat
+    let m := (st.mgr node).onPartitionHealed peer
+    pure (st.setMgr node m, s!"dp={showSet m.divergentPeers}")
+  | "MNEED" => do
+    let node ← nodeTok
+    let now ← nat
+    match (st.mgr node).peersNeedingSync now with
+    | some l => pure (st, s!"need {showSet l}")
+    | none => pure (st, "need underflow")
+  | "MDIG" => do
+    let id ← nat
+    let node ← nodeTok
+    let sl := st.slotN node
+    let d := (st.mgr node).generateDigest st.hasher sl.order sl.state
+    pure ({ st with digs := put st.digs id d }, s!"dg rid={d.rid} gen={d.generation} root={d.d.rootHash} count={d.d.keyCount} nb={d.d.buckets.length}")
+  | "MPROC" => do
+    let node ← nodeTok
+    let id ← nat
+    match st.digs.lookup id with
+    | none => failure
+    | some pd =>
+      let sl := st.slotN node
+      let m := st.mgr node
+      let ours := m.generateDigest st.hasher sl.order sl.state
+      let (m', v) := m.processPeerDigest pd ours
+      let vs := match v with | none => "none" | some l => "div=" ++ showSet l
+      pure ({ (st.setMgr node m') with verdicts := put st.verdicts node v }, s!"proc {vs} dp={showSet m'.divergentPeers}")
+  | "MREQ" => do
+    let id ← nat
+    let node ← nodeTok
+    let peer ← nat
+    let full ← nat
+    let now ← nat
+    let sl := st.slotN node
+    let m := st.mgr node
+    let ours := m.generateDigest st.hasher sl.order sl.state
+    let buckets := if full != 0 then none else ((st.verdicts.lookup node).getD none)
+    let (m', rq) := m.createSyncRequest peer ours buckets now
+    let bs := match rq.buckets with | none => "none" | some l => showSet l
+    pure ({ (st.setMgr node m') with reqs := put st.reqs id rq }, s!"req from={rq.fromR} to={rq.toR} buckets={bs} root={rq.digest.d.rootHash} gen={rq.digest.generation}")
+  | "MHANDLE" => do
+    let rid ← nat
+    let node ← nodeTok
+    let qid ← nat
+    match st.reqs.lookup qid with
+    | none => failure
+    | some rq =>
+      let sl := st.slotN node
+      let (m', rs) := (st.mgr node).handleSyncRequest st.hasher rq sl.order sl.state
+      pure ({ (st.setMgr node m') with resps := put st.resps rid rs },
+        s!"resp from={rs.fromR} keys={",".intercalate (rs.deltas.map fun p => showKey p.1)} root={rs.digest.d.rootHash} dp={showSet m'.divergentPeers}")
+  | "MAPPLY" => do
+    let node ← nodeTok
+    let rid ← nat
+    match st.resps.lookup rid with
+    | none => failure
+    | some rs =>
+      let sl := st.slotN node
+      let s' := applyDeltas sl.state rs.deltas
+      pure (st.setSlotN node { sl with state := s', order := NMap.keys s' }, showState "s" s')
   | "D" => do
     let isA ← slotTok
     pure (st, showDigest (slotDigest st (st.slot isA)))
@@ -132,6 +247,27 @@ def cmd (st : St) : P (St × String) := do
   | "SYNC" => do
     let limit := effectiveLimit currentLimitAtLeastOne (← nat)
     let (a', b') := syncRound keyLe st.hasher st.a.depth limit st.a.order st.b.order st.a.state st.b.state
+    let st' := { st with a := { st.a with state := a', order := NMap.keys a' },
+                         b := { st.b with state := b', order := NMap.keys b' } }
+    pure (st', showState "a" a' ++ " | " ++ showState "b" b')
+  | "SYNC3" => do
+    -- `run_full_anti_entropy` on three connected nodes: the pairs (a,b), (a,c), (b,c) in this order
+    let limit := effectiveLimit currentLimitAtLeastOne (← nat)
+    let (a1, b1) := syncRound keyLe st.hasher st.a.depth limit st.a.order st.b.order st.a.state st.b.state
+    let (a2, c1) := syncRound keyLe st.hasher st.a.depth limit (NMap.keys a1) st.c.order a1 st.c.state
+    let (b2, c2) := syncRound keyLe st.hasher st.a.depth limit (NMap.keys b1) (NMap.keys c1) b1 c1
+    let st' := { st with a := { st.a with state := a2, order := NMap.keys a2 },
+                         b := { st.b with state := b2, order := NMap.keys b2 },
+                         c := { st.c with state := c2, order := NMap.keys c2 } }
+    pure (st', showState "a" a2 ++ " | " ++ showState "b" b2 ++ " | " ++ showState "c" c2)
+  | "HEAL" => do
+    -- `heal_partition(a, b)`: a sync iff the pair was partitioned and `auto_anti_entropy` is on
+    let was ← nat
+    let auto ← nat
+    let limit := effectiveLimit currentLimitAtLeastOne (← nat)
+    let (a', b') := if was != 0 && auto != 0 then
+        syncRound keyLe st.hasher st.a.depth limit st.a.order st.b.order st.a.state st.b.state
+      else (st.a.state, st.b.state)
     let st' := { st with a := { st.a with state := a', order := NMap.keys a' },
                          b := { st.b with state := b', order := NMap.keys b' } }
     pure (st', showState "a" a' ++ " | " ++ showState "b" b')
